@@ -942,7 +942,13 @@ def rules(tier):
             # mutation sweep: a base structure means the same transitions to the loader as to the trainer
             ('C07.R23', _shared_rule('c14', 'r20_structure_tokeniser')),
             # mutation sweep: IP.level / CP.level mean the same to the scorer as to the guesser
-            ('C07.R24', _shared_rule('c11', 'r20_scorer_table_fields'))]
+            ('C07.R24', _shared_rule('c11', 'r20_scorer_table_fields')),
+            # C07-eb: the scorer loader stores NFC-normalised keys
+            ('C07.R25', _shared_rule('c13', 'r5_loader')),
+            # C07-eb: the scorer normalises the password before segmenting it
+            ('C07.R26', _shared_rule('c13', 'r1_detector_order')),
+            # a terminal file means the same values to the guesser whatever the options
+            ('C07.R27', _shared_rule('plumbing', 'terminals_stored_as_read'))]
 
 
 META = {
